@@ -37,6 +37,43 @@ try:
     from simple_ddl_parser import DDLParser
     pkg = os.path.dirname(simple_ddl_parser.__file__)
     out["pkg"] = pkg
+    if len(sys.argv) > 2 and sys.argv[2].startswith("first:"):
+        # one script, parsed by the very first parser object of the process - the one that meets the cache in its state
+        it = json.load(open(sys.argv[1]))[int(sys.argv[2][6:])]
+        try:
+            r = DDLParser(it["ddl"], **it.get("ctor", {})).run(**it.get("run", {}))
+            out["first"] = ["ok", hashlib.sha1(json.dumps(r, sort_keys=True, default=repr).encode()).hexdigest(), len(r) if hasattr(r, "__len__") else 0]
+        except Exception as e:
+            out["first"] = ["exc", type(e).__name__, str(e)[:600]]
+        sys.stdout.write(json.dumps(out))
+        sys.stdout.flush()
+        os._exit(0)
+    if len(sys.argv) > 2 and sys.argv[2] == "cli":
+        # the sdp command is the first user of the tables in this process: what it prints must not depend on the cache state
+        import contextlib, io
+        from simple_ddl_parser import cli
+        src = os.path.join(os.getcwd(), "cli_input.sql")
+        with open(src, "w") as f:
+            f.write(json.load(open(sys.argv[1]))[0]["ddl"])
+        buf = io.StringIO()
+        argv = sys.argv
+        sys.argv = ["sdp", src, "--no-dump"]
+        try:
+            with contextlib.redirect_stdout(buf):
+                try:
+                    cli.main()
+                    out["cli_exit"] = 0
+                except SystemExit as e:
+                    out["cli_exit"] = e.code
+        finally:
+            sys.argv = argv
+        text = buf.getvalue().replace(os.getcwd(), "<cwd>")
+        out["cli_stdout_sha1"] = hashlib.sha1(text.encode()).hexdigest()
+        out["cli_stdout_len"] = len(text)
+        out["cli_stdout_head"] = text[:300]
+        sys.stdout.write(json.dumps(out))
+        sys.stdout.flush()
+        os._exit(0)
     # the first parser of the process (the one that finds the cache in its state) is a non-silent one: a stale cache is
     # an internal matter and must not surface as an error either
     p = DDLParser("create table t (a int);", silent=False)
@@ -54,7 +91,7 @@ try:
             r = DDLParser(it["ddl"], **it.get("ctor", {})).run(**it.get("run", {}))
             res.append(["ok", hashlib.sha1(json.dumps(r, sort_keys=True, default=repr).encode()).hexdigest(), len(r) if hasattr(r, "__len__") else 0])
         except Exception as e:
-            res.append(["exc", type(e).__name__, str(e)[:200]])
+            res.append(["exc", type(e).__name__, str(e)[:600]])
     out["results"] = res
     tab = os.path.join(pkg, "parsetab.py")
     out["parsetab_sha1"] = hashlib.sha1(open(tab, "rb").read()).hexdigest() if os.path.exists(tab) else None
@@ -87,7 +124,10 @@ class C20(Prop):
             "_tabversion, tables of a foreign grammar (one production edited) with their own signature, the "
             "same with a modification time newer than every source, missing in a read-only package directory; x inputs "
             "= the 267 regression-corpus scripts with their test configuration + N seeded generated scripts of every statement "
-            "kind; relations: table digest == fresh generation, results == valid-cache results, rewritten file == fresh generation, "
+            "kind + every rejected / truncated statement template parsed with silent=False (error type and message compared); in a "
+            "second process per state the sdp command is the first user of the tables (exit status and stdout compared), and a "
+            "selection of scripts (truncated statements with silent=False, rejected statements, corpus scripts; thorough: all) is "
+            "parsed by the first parser object of a fresh process per (state, script); relations: table digest == fresh generation, results == valid-cache results, rewritten file == fresh generation, "
             "shipped signature matches => shipped tables equal; the state set is enumerated completely (exhaustive over states, "
             "sampled over inputs); non-trivial = a (state, script) pair where the state forces regeneration or carries wrong "
             "tables and the script yields >= 1 entity; distinct = (state, SHA-1 of script + configuration)")
@@ -143,9 +183,9 @@ class C20(Prop):
             os.chmod(os.path.join(d, "simple_ddl_parser"), 0o555)
         return d
 
-    def run_child(self, d, batch_path, sync=True):
+    def run_child(self, d, batch_path, mode="batch"):
         env = dict(os.environ, PYTHONPATH=d, PYTHONHASHSEED="0", PYTHONDONTWRITEBYTECODE="1")
-        return subprocess.Popen([sys.executable, "-c", CHILD, batch_path], env=env, cwd=d, stdout=subprocess.PIPE, stderr=subprocess.PIPE)
+        return subprocess.Popen([sys.executable, "-c", CHILD, batch_path, mode], env=env, cwd=d, stdout=subprocess.PIPE, stderr=subprocess.PIPE)
 
     def collect(self, proc, what):
         so, se = proc.communicate(timeout=3000)
@@ -180,6 +220,14 @@ class C20(Prop):
                 ctor = {k: v for k, v in it["ctor"].items() if k in ("normalize_names",)}
                 batch.append({"ddl": it["ddl"], "ctor": ctor, "run": {k: v for k, v in it["run"].items() if k in ("output_mode", "group_by_type")}})
             batch += self.generated_batch(n, seed)
+            # statements the grammar rejects, parsed with silent=False: the error raised (type and message) is part of the result
+            from . import c16
+            for t in universe.REJECTED + c16.TRUNCATED:
+                names = {"a": "col_a", "b": "col_b", "t": "tbl", "s": "sch", "u": "usr", "v": "vw", "f": "fn"}
+                batch.append({"ddl": "CREATE TABLE t_ok (a int);\n" + t.format(**names) + "\n", "ctor": {"silent": False}, "run": {}})
+                batch.append({"ddl": t.format(**names), "ctor": {"silent": False}, "run": {}, "first": "truncated" if t in c16.TRUNCATED else "rejected"})
+            for k in range(0, len(universe.corpus()), 40):
+                batch[k]["first"] = "corpus"
             batch_path = os.path.join(base, "batch.json")
             with open(batch_path, "w") as f:
                 json.dump(batch, f)
@@ -218,8 +266,23 @@ class C20(Prop):
                         continue
                     dirs[s] = self.make_state(s, base, fresh_tab, foreign_tab)
                     procs[s] = self.run_child(dirs[s], batch_path)
+                cli_procs = {}
+                cli_path = os.path.join(base, "cli.json")
+                with open(cli_path, "w") as f:
+                    json.dump([{"ddl": "CREATE TABLE cli_t (id int PRIMARY KEY, v varchar(10));\nCREATE SEQUENCE cli_s START WITH 3;\nSELECT 1;\n"}], f)
+                for s in STATES:
+                    dd = self.make_state(s, os.path.join(base, "cli"), fresh_tab, foreign_tab)
+                    cli_procs[s] = self.run_child(dd, cli_path, "cli")
                 for s, p in procs.items():
                     results[s] = self.collect(p, s)
+                cli_results = {s: self.collect(p, s + " (cli)") for s, p in cli_procs.items()}
+                cref = cli_results.get("valid", {})
+                for s, r in sorted(cli_results.items()):
+                    if "error" in r:
+                        violations.append(("cli-state-fails:" + s, "cache state %r: the sdp command fails with %s" % (s, r["error"]), {"state": s, "entry": "cli", "trace": r.get("trace")}))
+                    elif "error" not in cref and (r["cli_exit"], r["cli_stdout_sha1"]) != (cref["cli_exit"], cref["cli_stdout_sha1"]):
+                        violations.append(("cli-output-differs:" + s, "cache state %r: `sdp file --no-dump` exits %r and prints %d characters (%r...), with a valid cache %r and %d characters (%r...)" % (
+                            s, r["cli_exit"], r["cli_stdout_len"], r["cli_stdout_head"][:120], cref["cli_exit"], cref["cli_stdout_len"], cref["cli_stdout_head"][:120]), {"state": s, "entry": "cli"}))
             else:
                 dirs["as_found"] = self.make_state("as_found", base, None, None)
                 results["as_found"] = self.collect(self.run_child(dirs["as_found"], batch_path), "as_found")
@@ -242,7 +305,7 @@ class C20(Prop):
                 if fresh_digest and r["digest"] != fresh_digest:
                     violations.append(("tables-in-use-differ:" + s, "cache state %r: the parser runs with tables (digest %s, %d states) that differ from a fresh generation (%s)" % (
                         s, r["digest"][:12], r["n_states"], fresh_digest[:12]), case))
-                diffs = [k for k, (a, b) in enumerate(zip(r["results"], ref["results"])) if a[:2] != b[:2]]
+                diffs = [k for k, (a, b) in enumerate(zip(r["results"], ref["results"])) if (a[:2] != b[:2] or (a[0] == "exc" and a[2] != b[2]))]
                 evals += len(r["results"])
                 for k, a in enumerate(r["results"]):
                     if s in regen_states and a[0] == "ok" and a[2]:
@@ -258,6 +321,40 @@ class C20(Prop):
                 if len(samples) < 6:
                     samples.append({"state": s, "tables_digest": r["digest"][:16], "lalr_states": r["n_states"], "productions": r["n_productions"],
                                     "example_script": batch[len(samples) * 37 % len(batch)]["ddl"][:200]})
+            # ---- the first parser object of a process: it is the one that meets the cache state (later ones find what it left)
+            if fresh_tab_ok:
+                from concurrent.futures import ThreadPoolExecutor
+
+                first_idx = [k for k, it in enumerate(batch) if it.get("first")]
+                if tier == "quick":
+                    trunc = [k for k in first_idx if batch[k]["first"] == "truncated"]
+                    other = [k for k in first_idx if batch[k]["first"] != "truncated"]
+                    first_idx = trunc + [other[(seed * 5 + 7 * j) % len(other)] for j in range(5)]
+
+                def first_job(job):
+                    st_name, k = job
+                    dd = self.make_state(st_name, os.path.join(base, "first", str(k)), fresh_tab, foreign_tab)
+                    try:
+                        return job, self.collect(self.run_child(dd, batch_path, "first:%d" % k), "%s first:%d" % (st_name, k))
+                    finally:
+                        os.chmod(os.path.join(dd, "simple_ddl_parser"), 0o755)
+                        shutil.rmtree(dd, ignore_errors=True)
+
+                jobs = [(st_name, k) for k in first_idx for st_name in STATES]
+                with ThreadPoolExecutor(max_workers=int(os.environ.get("VERIF_WORKERS", "16"))) as ex:
+                    first = dict(ex.map(first_job, jobs))
+                for (st_name, k), r in sorted(first.items()):
+                    evals += 1
+                    refr = first[("valid", k)]
+                    if "error" in r or "error" in refr:
+                        if "error" in r:
+                            violations.append(("first-parser-fails:" + st_name, "cache state %r: %s" % (st_name, r["error"]), {"state": st_name, "script": batch[k]}))
+                        continue
+                    if st_name in regen_states:
+                        pairs.add((st_name, "first", k))
+                    if r["first"] != refr["first"]:
+                        violations.append(("first-parser-result-differs:" + st_name, "cache state %r: the first parser object of the process returns %r for %r, with a valid cache %r" % (
+                            st_name, r["first"], batch[k]["ddl"], refr["first"]), {"state": st_name, "script": batch[k], "first_parser": True}))
             # ---- structural relation for the shipped file
             shipped_path = os.path.join(loader.REPO, "simple_ddl_parser", "parsetab.py")
             structural = "no parsetab.py in the working tree"
